@@ -156,6 +156,12 @@ func (x *CommonLex) Error(s string) {
 		return
 	}
 	x.progBldr.parseErr = fmt.Errorf("%s", s)
+	if x.peek == xutils.ERR {
+		// The look-ahead is an invalid UTF-8 byte, not a rune that can be
+		// put back in front of the remaining input.
+		x.progBldr.lineAtErr = string(x.line)
+		return
+	}
 	if x.peek != xutils.EOF {
 		x.progBldr.lineAtErr = string(x.peek) + string(x.line)
 	} else {
